@@ -3,32 +3,44 @@
   is dropped.
 
   Model: `DD.AMgr` (a `dd.bdd.BDD` manager + registry of live `Function`s),
-  `lean/DD/Auto.lean`.  Invariant: `DD.AInv`
+  `lean/DD/Auto.lean`.  Invariant `DD.AInv off a`:
       Inv m  ∧  every handle points to a stored node  ∧
-      ∀ k, ref k = indeg k + #{h | |handles h| = k} + (if k = 1 then 1 else 0)
-  (`ref` has no key outside `_succ`).
+      RefExact m (number of live handles on the node), i.e.
+      ∀ k, ref k = indeg k + #{h | |handles h| = k} + (if k = 1 then 1 else 0),
+      `_ref` has no key outside `_succ`
+      ∧ (mode `off = true`) dynamic reordering is not enabled.
 
-  Proved without hypotheses: the registry bookkeeping (`C08_wrap`, `C08_drop`,
-  `C08_drop_wrap_id`), the operations whose core part does not touch the table
-  (`C08_ops_unconditional`), the history theorem `C08_live_den` (relative to the
-  per-operation guarantee `AKeeps`).
-  Proved from explicit hypotheses about `dd.bdd` alone (`CoreSpecs`, `GcSpec`:
-  frame properties of the core operations, to be discharged by the core proofs):
-  `C08_ops_of_coreSpecs`, `C08_shutdown_of_gcSpec`.
-  The unconditional statements are kept as `C08_ops_statement`,
-  `C08_shutdown_statement`.
+  UNCONDITIONAL (no hypothesis about the core left):
+    * registry bookkeeping: `C08_wrap`, `C08_drop`, `C08_drop_wrap_id`, `C08_counts`
+    * with reordering not enabled (`off = true`): `C08_ops_off` — `var`, `true/false`,
+      `apply` with every alias that does not quantify, `ite`, `quantify/exist/forall`, `cube`,
+      `_add_int`, `copy_bdd` into the same manager, `copy.copy`, the operators
+      `~ & | implies equiv`, `== != <= <` (temporaries released), `low/high`, `succ`,
+      `collect_garbage`, `configure` — and histories over them (`C08_live_den`)
+    * in every mode: `collect_garbage`, and the methods whose core part does not touch the
+      table (`C08_ops_unconditional`)
+    * shutdown after "drop everything, collect" (`C08_collect_then_shutdown`)
+  CONDITIONAL, hypotheses named: `CoreSpecs off` (mode `false` = reordering possibly enabled:
+  everything that can reorder), and for mode `true` the rest: `let` (`LetSpec`), `apply` with the quantifier aliases (`ApplyQuantSpec`), `image/preimage`
+  (`ImageSpec`), copies between managers (`CopySpec`), `declare/add_var/copy_vars`
+  (`VarsSpec`), `reorder` (`ReorderSpec`); `find_or_add` per state (`C08_find_or_add`);
+  shutdown with garbage still stored (`GcSpec0`: `collect_garbage` after the terminal's own
+  reference is released).
 -/
 import DDProofs.AutoProofs
 import DDProofs.AutoTemps
+import DDProofs.AutoCore
 open Std
 
 namespace DD
 
+variable {off : Bool}
+
 /-- creating a `Function` (`Function.__init__`, `_wrap`) on a stored node with a fresh id:
 succeeds, the invariant (count equation included) is kept, the table is untouched -/
-theorem C08_wrap (a : AMgr) (h : Nat) (u : Int) (hi : AInv a)
+theorem C08_wrap (a : AMgr) (h : Nat) (u : Int) (hi : AInv off a)
     (hf : a.handles.contains h = false) (hu : a.m.tbl.Mem u) :
-    ∃ a', wrap h u a = (.ok (), a') ∧ wrapF h u a = (.ok (), a') ∧ AInv a' ∧ a'.m.tbl = a.m.tbl ∧
+    ∃ a', wrap h u a = (.ok (), a') ∧ wrapF h u a = (.ok (), a') ∧ AInv off a' ∧ a'.m.tbl = a.m.tbl ∧
       a'.handles = a.handles.insert h u := by
   obtain ⟨a1, h1, i1, t1, hh1, _⟩ := wrap_spec a h u hi hf hu
   obtain ⟨a2, h2, _⟩ := wrapF_spec a h u hi hf hu
@@ -42,149 +54,258 @@ theorem C08_wrap (a : AMgr) (h : Nat) (u : Int) (hi : AInv a)
 
 /-- dropping a live `Function` (`__del__`): exactly one reference is released, the invariant
 (count equation included) is kept, the table is untouched -/
-theorem C08_drop (a : AMgr) (h : Nat) (u : Int) (hi : AInv a) (hh : a.handles[h]? = some u) :
-    ∃ a', drop h a = (.ok (), a') ∧ AInv a' ∧ a'.m.tbl = a.m.tbl ∧
+theorem C08_drop (a : AMgr) (h : Nat) (u : Int) (hi : AInv off a) (hh : a.handles[h]? = some u) :
+    ∃ a', drop h a = (.ok (), a') ∧ AInv off a' ∧ a'.m.tbl = a.m.tbl ∧
       a'.handles = a.handles.erase h := by
   obtain ⟨a1, h1, i1, t1, hh1, _⟩ := drop_spec a h u hi hh
   exact ⟨a1, h1, i1, t1, hh1⟩
 
 /-- a temporary `Function` (created and dropped again) leaves every count as it was -/
-theorem C08_drop_wrap_id (a : AMgr) (h : Nat) (u : Int) (hi : AInv a)
+theorem C08_drop_wrap_id (a : AMgr) (h : Nat) (u : Int) (hi : AInv off a)
     (hf : a.handles.contains h = false) (hu : a.m.tbl.Mem u) :
-    ∃ a1 a2, wrap h u a = (.ok (), a1) ∧ drop h a1 = (.ok (), a2) ∧ AInv a2 ∧
+    ∃ a1 a2, wrap h u a = (.ok (), a1) ∧ drop h a1 = (.ok (), a2) ∧ AInv off a2 ∧
       a2.m.tbl = a.m.tbl ∧ (∀ k : Nat, a2.m.ref[k]? = a.m.ref[k]?) ∧
       (∀ j : Nat, a2.handles[j]? = a.handles[j]?) :=
   drop_wrap_id a h u hi hf hu
 
+/-- the count equation in the form of the property statement -/
+theorem C08_counts (a : AMgr) (hi : AInv off a) (u : Int) (hu : a.m.tbl.Mem u) :
+    a.m.ref[u.natAbs]? =
+      some (indeg a.m.tbl u.natAbs + hcount a.handles u.natAbs + (if u.natAbs = 1 then 1 else 0)) :=
+  hi.counts.get hu
+
+/-! ### the methods -/
+
 /-- the per-operation guarantee: invariant kept (count equation included), no handle
 touched other than the new one(s), every live `Function` keeps its node and its meaning by
 variable name, whether the method returns or raises.
-`AKeeps h` : creates at most handle `h`;  `AKeeps0` : the registry ends exactly as it
-started (temporaries of `<=`, `<` released);  `AKeepsL [h1, h2]` : `succ`. -/
-def C08_ops_list (h : Nat) : Prop :=
-  (∀ name, AKeeps h (aVar name h)) ∧
-  (∀ b, AKeeps h (aConst b h)) ∧
-  (∀ op hu hv hw, AKeeps h (aApply op hu hv hw h)) ∧
-  (∀ hg hu hv, AKeeps h (aIte hg hu hv h)) ∧
-  (∀ d hu, AKeeps h (aLet d hu h)) ∧
-  (∀ hu q fa, AKeeps h (aQuantify hu q fa h)) ∧
-  (∀ d, AKeeps h (aCube d h)) ∧
-  (∀ i, AKeeps h (aAddInt i h)) ∧
-  (∀ hu, AKeeps h (aCopyBddSame hu h)) ∧
-  (∀ pre ht hs rn q fa, AKeeps h (aImage pre ht hs rn q fa h)) ∧
-  (∀ src hu, AKeeps h (aCopyTo src hu h)) ∧
-  (∀ src hu, AKeeps h (aCopyBddTo src hu h)) ∧
-  (∀ op hs ho, AKeeps h (fApply op hs ho h)) ∧
-  (∀ high hs, AKeeps h (fChild high hs h)) ∧
-  (∀ hs, AKeeps h (fCopy hs h)) ∧
-  (∀ hu h2, h ≠ h2 → AKeepsL [h, h2] (aSucc hu h h2)) ∧
-  (∀ hs ho, AKeeps0 (fEq hs ho)) ∧
-  (∀ hs ho, AKeeps0 (fNe hs ho)) ∧
-  (∀ hs ho, AKeeps0 (fLe hs ho)) ∧
-  (∀ hs ho, AKeeps0 (fLt hs ho)) ∧
-  AKeeps h aCollectGarbage ∧
-  (∀ o, AKeeps h (aReorder o)) ∧
-  (∀ r, AKeeps h (aConfigure r)) ∧
-  (∀ ns, AKeeps h (aDeclare ns)) ∧
-  (∀ n l, AKeeps h (aAddVar n l)) ∧
-  (∀ src names, AKeeps h (aCopyVars src names))
+`AKeeps off h` : creates at most handle `h`;  `AKeeps0 off` : the registry ends exactly as
+it started (temporaries of `<=`, `<` released);  `AKeepsL off [h1, h2]` : `succ`. -/
+def C08_ops_list (off : Bool) (h : Nat) : Prop :=
+  (∀ name, AKeeps off h (aVar name h)) ∧
+  (∀ b, AKeeps off h (aConst b h)) ∧
+  (∀ op hu hv hw, AKeeps off h (aApply op hu hv hw h)) ∧
+  (∀ hg hu hv, AKeeps off h (aIte hg hu hv h)) ∧
+  (∀ d hu, AKeeps off h (aLet d hu h)) ∧
+  (∀ hu q fa, AKeeps off h (aQuantify hu q fa h)) ∧
+  (∀ d, AKeeps off h (aCube d h)) ∧
+  (∀ i, AKeeps off h (aAddInt i h)) ∧
+  (∀ hu, AKeeps off h (aCopyBddSame hu h)) ∧
+  (∀ pre ht hs rn q fa, AKeeps off h (aImage pre ht hs rn q fa h)) ∧
+  (∀ src hu, AKeeps off h (aCopyTo src hu h)) ∧
+  (∀ src hu, AKeeps off h (aCopyBddTo src hu h)) ∧
+  (∀ op hs ho, AKeeps off h (fApply op hs ho h)) ∧
+  (∀ high hs, AKeeps off h (fChild high hs h)) ∧
+  (∀ hs, AKeeps off h (fCopy hs h)) ∧
+  (∀ hu h2, h ≠ h2 → AKeepsL off [h, h2] (aSucc hu h h2)) ∧
+  (∀ hs ho, AKeeps0 off (fEq hs ho)) ∧
+  (∀ hs ho, AKeeps0 off (fNe hs ho)) ∧
+  (∀ hs ho, AKeeps0 off (fLe hs ho)) ∧
+  (∀ hs ho, AKeeps0 off (fLt hs ho)) ∧
+  AKeeps off h aCollectGarbage ∧
+  (∀ o, AKeeps off h (aReorder o)) ∧
+  (∀ r, (off = true → r ≠ some true) → AKeeps off h (aConfigure r)) ∧
+  (∀ ns, AKeeps off h (aDeclare ns)) ∧
+  (∀ n l, AKeeps off h (aAddVar n l)) ∧
+  (∀ src names, AKeeps off h (aCopyVars src names))
 
-/-- the unconditional statement -/
-def C08_ops_statement : Prop := ∀ h, C08_ops_list h
+/-- the unconditional statement (every mode) -/
+def C08_ops_statement (off : Bool) : Prop := ∀ h, C08_ops_list off h
 
-/-- … proved from the frame properties of the core operations -/
-theorem C08_ops_of_coreSpecs (cs : CoreSpecs) : C08_ops_statement := fun h =>
-  ⟨fun n => aVar_keeps cs n h, fun b => aConst_keeps b h,
-   fun op hu hv hw => aApply_keeps cs op hu hv hw h, fun hg hu hv => aIte_keeps cs hg hu hv h,
-   fun d hu => aLet_keeps cs d hu h, fun hu q fa => aQuantify_keeps cs hu q fa h,
+/-- … proved from the frame properties of the core operations (`collect_garbage` needs none) -/
+theorem C08_ops_of_coreSpecs (cs : CoreSpecs off) : C08_ops_statement off := fun h =>
+  ⟨fun n => aVar_keeps n (cs.var n) h, fun b => aConst_keeps b h,
+   fun op hu hv hw => aApply_keeps op (cs.apply op) hu hv hw h,
+   fun hg hu hv => aIte_keeps cs.ite hg hu hv h,
+   fun d hu => aLet_keeps cs d hu h,
+   fun hu q fa => aQuantify_keeps q fa (fun m u hm => cs.quantify m u hm q fa) hu h,
    fun d => aCube_keeps cs d h, fun i => aAddInt_keeps i h, fun hu => aCopyBddSame_keeps hu h,
    fun pre ht hs rn q fa => aImage_keeps cs pre ht hs rn q fa h,
    fun src hu => aCopyTo_keeps cs src hu h, fun src hu => aCopyBddTo_keeps cs src hu h,
-   fun op hs ho => fApply_keeps cs op hs ho h, fun high hs => fChild_keeps high hs h,
+   fun op hs ho => fApply_keeps op (fun u v => cs.apply op u v none) hs ho h,
+   fun high hs => fChild_keeps high hs h,
    fun hs => fCopy_keeps hs h, fun hu h2 hne => aSucc_keepsL hu h h2 hne,
    fun hs ho => fEq_keeps0 hs ho, fun hs ho => fNe_keeps0 hs ho,
-   fun hs ho => fLe_keeps0 cs hs ho, fun hs ho => fLt_keeps0 cs hs ho,
-   aCollectGarbage_keeps cs h, fun o => aReorder_keeps cs o h, fun r => aConfigure_keeps r h,
+   fun hs ho => fLe_keeps0 (fun u => cs.apply "not" u none none)
+     (fun u v => cs.apply "or" u (some v) none) hs ho,
+   fun hs ho => fLt_keeps0 (fun u => cs.apply "not" u none none)
+     (fun u v => cs.apply "or" u (some v) none) hs ho,
+   aCollectGarbage_keepsAll h, fun o => aReorder_keeps cs o h,
+   fun r hr => aConfigure_keeps r hr h,
    fun ns => aDeclare_keeps cs ns h, fun n l => aAddVar_keeps cs n l h,
    fun src names => aCopyVars_keeps cs src names h⟩
+
+/-- reordering NOT enabled: these methods need no hypothesis at all -/
+theorem C08_ops_off (h : Nat) :
+    (∀ name, AKeeps true h (aVar name h)) ∧
+    (∀ b, AKeeps true h (aConst b h)) ∧
+    (∀ op, NonQuant op → ∀ hu hv hw, AKeeps true h (aApply op hu hv hw h)) ∧
+    (∀ hg hu hv, AKeeps true h (aIte hg hu hv h)) ∧
+    (∀ hu q fa, AKeeps true h (aQuantify hu q fa h)) ∧
+    (∀ d, AKeeps true h (aCube d h)) ∧
+    (∀ i, AKeeps true h (aAddInt i h)) ∧
+    (∀ hu, AKeeps true h (aCopyBddSame hu h)) ∧
+    (∀ op, NonQuant op → ∀ hs ho, AKeeps true h (fApply op hs ho h)) ∧
+    (∀ high hs, AKeeps true h (fChild high hs h)) ∧
+    (∀ hs, AKeeps true h (fCopy hs h)) ∧
+    (∀ hu h2, h ≠ h2 → AKeepsL true [h, h2] (aSucc hu h h2)) ∧
+    (∀ hs ho, AKeeps0 true (fEq hs ho)) ∧
+    (∀ hs ho, AKeeps0 true (fNe hs ho)) ∧
+    (∀ hs ho, AKeeps0 true (fLe hs ho)) ∧
+    (∀ hs ho, AKeeps0 true (fLt hs ho)) ∧
+    AKeeps true h aCollectGarbage ∧
+    (∀ r, r ≠ some true → AKeeps true h (aConfigure r)) :=
+  ⟨fun n => aVar_keepsOff n h, fun b => aConst_keeps b h,
+   fun op hnq hu hv hw => aApply_keepsOff op hnq hu hv hw h,
+   fun hg hu hv => aIte_keepsOff hg hu hv h,
+   fun hu q fa => aQuantify_keepsOff hu q fa h, fun d => aCube_keepsOff d h,
+   fun i => aAddInt_keeps i h, fun hu => aCopyBddSame_keeps hu h,
+   fun op hnq hs ho => fApply_keepsOff op hnq hs ho h,
+   fun high hs => fChild_keeps high hs h, fun hs => fCopy_keeps hs h,
+   fun hu h2 hne => aSucc_keepsL hu h h2 hne,
+   fun hs ho => fEq_keeps0 hs ho, fun hs ho => fNe_keeps0 hs ho,
+   fun hs ho => fLe_keepsOff hs ho, fun hs ho => fLt_keepsOff hs ho,
+   aCollectGarbage_keepsAll h, fun r hr => aConfigure_keeps r (fun _ => hr) h⟩
+
+/-- the operators of `Function` use aliases that do not quantify -/
+theorem C08_operator_aliases :
+    NonQuant "not" ∧ NonQuant "and" ∧ NonQuant "or" ∧ NonQuant "implies" ∧ NonQuant "equiv" :=
+  ⟨nonQuant_not, nonQuant_and, nonQuant_or, nonQuant_implies, nonQuant_equiv⟩
+
+/-! the hypotheses that remain when reordering is not enabled -/
+
+/-- `let` (cofactor / compose / rename) -/
+structure LetSpec : Prop where
+  letOp : ∀ d u, CoreKeeps true (letOp d u)
+/-- `apply` with the aliases that quantify (`\A`, `\E`, `forall`, `exists`) -/
+structure ApplyQuantSpec : Prop where
+  apply : ∀ op, ¬ NonQuant op → ∀ u v w, CoreKeeps true (apply op u v w)
+/-- `image` / `preimage` -/
+structure ImageSpec : Prop where
+  image : ∀ t s rn q f, CoreKeeps true (image t s rn q f)
+  preimage : ∀ t s rn q f, CoreKeeps true (preimage t s rn q f)
+/-- `copy_bdd` into another manager -/
+structure CopySpec : Prop where
+  copyBdd : ∀ src u, CoreKeeps true (copyBdd src u)
+/-- `declare` / `add_var` / `copy_vars` -/
+structure VarsSpec : Prop where
+  declare : ∀ ns, CoreKeeps true (declare ns)
+  addVar : ∀ n l, CoreKeeps true (addVar n l)
+  copyVars : ∀ src names, CoreKeeps true (copyVarsCore src names)
+/-- explicit `reorder` (sifting or a given order) that leaves reordering disabled -/
+structure ReorderSpec : Prop where
+  reorder : ∀ o, CoreKeeps true (reorder o)
+
+/-- reordering not enabled: the whole list, from the remaining named hypotheses only -/
+theorem C08_ops_off_of_rest (hl : LetSpec) (hq : ApplyQuantSpec) (hi : ImageSpec)
+    (hcp : CopySpec) (hv : VarsSpec) (hr : ReorderSpec) : C08_ops_statement true :=
+  C08_ops_of_coreSpecs
+    { var := var_keepsOff
+      apply := fun op u v w => by
+        by_cases hnq : NonQuant op
+        · exact apply_keepsOff op u v w hnq
+        · exact hq.apply op hnq u v w
+      ite := ite_keepsOff
+      letOp := hl.letOp
+      quantify := fun m u hm q f => quantify_keepsAtOff m u hm q f
+      cube := cube_keepsOff
+      image := hi.image
+      preimage := hi.preimage
+      reorder := hr.reorder
+      declare := hv.declare
+      addVar := hv.addVar
+      copyBdd := hcp.copyBdd
+      copyVars := hv.copyVars }
 
 /-- `find_or_add(var, low, high)` has no test of its own: the guarantee holds in every state
 in which the core `find_or_add` keeps the invariants for the level and children that the
 wrapper reads (documented precondition: level above both children) -/
 theorem C08_find_or_add (a : AMgr) (var : String) (hlow hhigh h : Nat)
     (hfoa : ∀ level lo hi, (levelOfVar var a.m).1 = .ok level → (nodeAny hlow a).1 = .ok lo →
-      (nodeAny hhigh a).1 = .ok hi → CoreKeepsAt a.m (findOrAdd level lo hi)) :
-    AKeepsAt a h (aFindOrAdd var hlow hhigh h) :=
+      (nodeAny hhigh a).1 = .ok hi → CoreKeepsAt off a.m (findOrAdd level lo hi)) :
+    AKeepsAt off a h (aFindOrAdd var hlow hhigh h) :=
   aFindOrAdd_keepsAt a var hlow hhigh h hfoa
 
-/-- the methods that need no hypothesis at all: `true`/`false`, `_add_int`, `copy_bdd` into
-the same manager, `low`/`high`, `copy.copy(f)`, `succ`, `==`, `!=`, `configure` -/
+/-- the methods that need no hypothesis in ANY mode (reordering enabled or not): `true`/`false`,
+`_add_int`, `copy_bdd` into the same manager, `low`/`high`, `copy.copy(f)`, `succ`, `==`, `!=`,
+`collect_garbage` -/
 theorem C08_ops_unconditional (h : Nat) :
-    (∀ b, AKeeps h (aConst b h)) ∧ (∀ i, AKeeps h (aAddInt i h)) ∧
-    (∀ hu, AKeeps h (aCopyBddSame hu h)) ∧ (∀ high hs, AKeeps h (fChild high hs h)) ∧
-    (∀ hs, AKeeps h (fCopy hs h)) ∧
-    (∀ hu h2, h ≠ h2 → AKeepsL [h, h2] (aSucc hu h h2)) ∧
-    (∀ hs ho, AKeeps0 (fEq hs ho)) ∧ (∀ hs ho, AKeeps0 (fNe hs ho)) ∧
-    (∀ r, AKeeps h (aConfigure r)) :=
+    (∀ b, AKeeps off h (aConst b h)) ∧ (∀ i, AKeeps off h (aAddInt i h)) ∧
+    (∀ hu, AKeeps off h (aCopyBddSame hu h)) ∧ (∀ high hs, AKeeps off h (fChild high hs h)) ∧
+    (∀ hs, AKeeps off h (fCopy hs h)) ∧
+    (∀ hu h2, h ≠ h2 → AKeepsL off [h, h2] (aSucc hu h h2)) ∧
+    (∀ hs ho, AKeeps0 off (fEq hs ho)) ∧ (∀ hs ho, AKeeps0 off (fNe hs ho)) ∧
+    AKeeps off h aCollectGarbage :=
   ⟨fun b => aConst_keeps b h, fun i => aAddInt_keeps i h, fun hu => aCopyBddSame_keeps hu h,
    fun high hs => fChild_keeps high hs h, fun hs => fCopy_keeps hs h,
    fun hu h2 hne => aSucc_keepsL hu h h2 hne, fun hs ho => fEq_keeps0 hs ho,
-   fun hs ho => fNe_keeps0 hs ho, fun r => aConfigure_keeps r h⟩
+   fun hs ho => fNe_keeps0 hs ho, aCollectGarbage_keepsAll h⟩
+
+/-! ### histories -/
 
 /-- histories: through any sequence of operations with the guarantee `AKeepsL` (constructions,
-operators, traversals, collections, reorderings; `AKeeps h x` gives `AKeepsL [h] x`, `AKeeps0 x`
-gives `AKeepsL [] x`) and drops of *other* handles in any order,
-the invariant holds and every protected live `Function` keeps its node and its meaning -/
-theorem C08_live_den (P : Nat → Prop) {a a' : AMgr} (hi : AInv a) (hr : AReach P a a') :
-    AInv a' ∧ ∀ h, P h → ∀ u, a.handles[h]? = some u →
+operators, traversals, collections, reorderings; `AKeeps off h x` gives `AKeepsL off [h] x`,
+`AKeeps0 off x` gives `AKeepsL off [] x`) and drops of *other* handles in any order, the
+invariant holds and every protected live `Function` keeps its node and its meaning.
+With `off = true` every operation of `C08_ops_off` qualifies without hypothesis. -/
+theorem C08_live_den (P : Nat → Prop) {a a' : AMgr} (hi : AInv off a) (hr : AReach off P a a') :
+    AInv off a' ∧ ∀ h, P h → ∀ u, a.handles[h]? = some u →
       a'.handles[h]? = some u ∧ a'.m.tbl.Mem u ∧
       ∀ asg, denN a'.m.tbl u asg = denN a.m.tbl u asg :=
   autoref_live_den P hi hr
 
-/-- the count equation in the form of the property statement -/
-theorem C08_counts (a : AMgr) (hi : AInv a) (u : Int) (hu : a.m.tbl.Mem u) :
-    a.m.ref[u.natAbs]? =
-      some (indeg a.m.tbl u.natAbs + hcount a.handles u.natAbs + (if u.natAbs = 1 then 1 else 0)) := by
-  rw [hi.counts.of_mem hu]; unfold aext; simp [Nat.add_assoc]
+/-! ### shutdown -/
 
-/-- shutdown, unconditional statement -/
+/-- all `Function`s dropped, then `collect_garbage()`, then the manager dies: the collection
+leaves only the terminal, the shutdown check (`dd.bdd.BDD.__del__`) passes, every count is
+zero — no hypothesis, every mode -/
+theorem C08_collect_then_shutdown (a : AMgr) (hi : AInv off a) (he : a.handles.isEmpty = true) :
+    ∃ m1 m2, collectGarbage none a.m = (.ok (), m1) ∧ (∀ u : Nat, m1.tbl.node? u = none) ∧
+      shutdown m1 = (.ok (), m2) ∧ (∀ u : Nat, m2.tbl.node? u = none) ∧
+      (∀ (k c : Nat), m2.ref[k]? = some c → c = 0) :=
+  autoref_collect_then_shutdown a hi he
+
+/-- shutdown with garbage still stored, unconditional statement -/
 def C08_shutdown_statement : Prop :=
-  ∀ a : AMgr, AInv a → a.handles.isEmpty = true →
+  ∀ (off : Bool) (a : AMgr), AInv off a → a.handles.isEmpty = true →
     ∃ m', shutdown a.m = (.ok (), m') ∧ (∀ u : Nat, m'.tbl.node? u = none) ∧
       (∀ (k c : Nat), m'.ref[k]? = some c → c = 0)
 
-/-- … proved from the specification of `collect_garbage` -/
-theorem C08_shutdown_of_gcSpec (gs : GcSpec) : C08_shutdown_statement :=
-  fun a hi he => autoref_shutdown_of_gcSpec gs a hi he
+/-- … proved from the specification of `collect_garbage` in the state *after* the terminal's
+own reference has been released (`collectGarbage_spec` covers the states before) -/
+theorem C08_shutdown_of_gcSpec0 (gs : GcSpec0) : C08_shutdown_statement :=
+  fun _ a hi he => autoref_shutdown_of_gcSpec0 gs a hi he
 
 /-! ### non-vacuity -/
 
-/-- a fresh `autoref.BDD()` satisfies the invariant -/
-theorem AInv.empty : AInv ({} : AMgr) := by
-  refine ⟨Inv.init, fun h u hh => ?_, fun k => ?_⟩
+/-- a fresh `autoref.BDD()` satisfies the invariant (reordering is not enabled in it) -/
+theorem AInv.empty : AInv off ({} : AMgr) := by
+  refine ⟨Inv.init, fun h u hh => ?_, ⟨fun k => ?_, fun k c hk => ?_, fun k hk => ?_⟩, fun _ => rfl⟩
   · rw [show ({} : AMgr).handles = (∅ : TreeMap Nat Int) from rfl, TreeMap.getElem?_emptyc] at hh
     cases hh
-  · have hnode : ∀ u : Nat, ({} : AMgr).m.tbl.node? u = none := fun u => by
-      show (∅ : TreeMap Nat Nd)[u]? = none
-      exact TreeMap.getElem?_emptyc
-    have hind : indeg ({} : AMgr).m.tbl k = 0 := indeg_of_isEmpty _ _ TreeMap.isEmpty_emptyc
-    have hcnt : hcount ({} : AMgr).handles k = 0 := hcount_of_isEmpty _ _ TreeMap.isEmpty_emptyc
-    show ((∅ : TreeMap Nat Nat).insert 1 1)[k]? = _
+  · show (((∅ : TreeMap Nat Nat).insert 1 1)[k]?).isSome ↔ (k = 1 ∨ ((∅ : TreeMap Nat Nd)[k]?).isSome)
     by_cases hk : k = 1
-    · subst hk
-      have hm : NMem ({} : AMgr).m.tbl 1 := Or.inl rfl
-      rw [TreeMap.getElem?_insert_self, if_pos hm, hind]
-      unfold aext; rw [hcnt]; rfl
-    · rw [getElem?_insert_ne _ _ _ _ hk, TreeMap.getElem?_emptyc, if_neg]
-      intro hm
-      rcases hm with hm | hm
-      · exact hk hm
-      · rw [hnode k] at hm; cases hm
+    · subst hk; simp
+    · rw [getElem?_insert_ne _ _ _ _ hk]; simp [hk]
+  · have hk' : ((∅ : TreeMap Nat Nat).insert 1 1)[k]? = some c := hk
+    by_cases h1 : k = 1
+    · subst h1
+      rw [TreeMap.getElem?_insert_self] at hk'
+      cases hk'
+      have hnode : ∀ u : Nat, ({} : AMgr).m.tbl.node? u = none := fun u => by
+        show (∅ : TreeMap Nat Nd)[u]? = none
+        exact TreeMap.getElem?_emptyc
+      rw [indeg_zero_of_no_nodes _ hnode 1]
+      show 1 = 0 + hcount (∅ : TreeMap Nat Int) 1 + 1
+      rw [hcount_of_isEmpty _ _ TreeMap.isEmpty_emptyc]
+    · rw [getElem?_insert_ne _ _ _ _ h1, TreeMap.getElem?_emptyc] at hk'
+      cases hk'
+  · exact hcount_of_isEmpty _ _ TreeMap.isEmpty_emptyc
 
 /-- a state with a live `Function` (the constant `true` as handle 0) satisfies the invariant:
 the hypotheses of `C08_drop`, `C08_live_den` are satisfiable with a non-empty registry -/
-example : AInv (aConst true 0 {}).2 ∧ (aConst true 0 {}).2.handles[(0 : Nat)]? = some 1 := by
-  obtain ⟨a', hw, i', _, hh, _⟩ := wrap_spec {} 0 1 AInv.empty
+example : AInv true (aConst true 0 {}).2 ∧ (aConst true 0 {}).2.handles[(0 : Nat)]? = some 1 := by
+  obtain ⟨a', hw, i', _, hh, _⟩ := wrap_spec (off := true) {} 0 1 AInv.empty
     (by show (∅ : TreeMap Nat Int).contains 0 = false; exact TreeMap.contains_emptyc) (Or.inl rfl)
   have : aConst true 0 {} = (.ok 1, a') := by
     show AM.bind' (AM.liftM (pure 1)) (fun r => AM.bind' (wrap 0 r) (fun _ => AM.pure' r)) {} = _
@@ -195,10 +316,13 @@ example : AInv (aConst true 0 {}).2 ∧ (aConst true 0 {}).2.handles[(0 : Nat)]?
   rw [this]
   exact ⟨i', by rw [hh]; exact TreeMap.getElem?_insert_self⟩
 
-/-- the hypothesis structure `CoreKeeps` is satisfiable (here: by a read) -/
-example : CoreKeeps (addInt 1) := CoreKeeps.of_read (addInt_read 1)
+/-- the hypothesis structure `CoreKeeps` is satisfiable (here: by a read; `ite_keepsOff`,
+`apply_keepsOff`, `var_keepsOff`, `gc_keeps` are instances for real operations) -/
+example : CoreKeeps off (addInt 1) := CoreKeeps.of_read (addInt_read 1)
+example : CoreKeeps true (ite 2 3 4) := ite_keepsOff 2 3 4
 
-/-- the hypotheses of the shutdown theorem are met by a fresh manager -/
-example : AInv ({} : AMgr) ∧ ({} : AMgr).handles.isEmpty = true := ⟨AInv.empty, TreeMap.isEmpty_emptyc⟩
+/-- the hypotheses of the shutdown theorems are met by a fresh manager -/
+example : AInv off ({} : AMgr) ∧ ({} : AMgr).handles.isEmpty = true :=
+  ⟨AInv.empty, TreeMap.isEmpty_emptyc⟩
 
 end DD
